@@ -1,4 +1,4 @@
-"""Gen/FlowAlg.v -- core/flow.py: expv, compose_flows (and, for C13, compose_svfs / logv), traced from the source text
+"""Gen/FlowAlg.v -- core/flow.py: expv, compose_flows (compose_svfs / logv: see flowbch.py), traced from the source text
 with torch.nn.functional.grid_sample replaced by an opaque operator that records its arguments:
 
 * gen_expv_pre_k f scale     the value a flow sample f has before the squaring loop for steps = k, k = 0..8
@@ -417,12 +417,10 @@ def generate(loader):
     img = loader.load("deepali.core.image")
     grid_mod = loader.load("deepali.core.grid")
     mods = (flow_mod, img, grid_mod)
-    out = ["From DV Require Import Model.Sampler Model.BCH.", "Section Gen.", "Context {K : fld}.", ""]
+    out = ["From DV Require Import Model.Sampler.", "Section Gen.", "Context {K : fld}.", ""]
     with simple_float_literals():
         pre, eflags = expv_section(mods)
         cflags, cbatch = compose_section(mods)
-        bch = bch_section(flow_mod)
-        lflags = logv_section(mods)
     out += pre
     out += emit_flags("gen_expv", eflags)
     out += emit_flags("gen_compose", cflags)
@@ -446,9 +444,4 @@ def generate(loader):
     out.append("(* does compose_flows accept a batch of N > 1 fields (an in-place add into a (1, ...) tensor raises)? *)\n"
                f"Definition gen_compose_flows_batched : bool := {'true' if cbatch else 'false'}.\n")
     out.append("End Gen.\n")
-    out.append("(* compose_svfs(u, v, bch_terms): linear combination of u, v and nested brackets (lie_bracket opaque) *)")
-    out.append(bch)
-    out.append("(* logv(flow, align_corners = ac): flags reaching Grid.coords / F.grid_sample in its expv step and in its compose_flows step *)")
-    out += emit_flags("gen_logv_expv", lflags["expv"])
-    out += emit_flags("gen_logv_compose", lflags["compose"])
     return "\n".join(out)
